@@ -940,11 +940,12 @@ func aliasClass(addr *Expr) string {
 	switch addr.Op {
 	case "fa":
 		return "F:" + addr.Aux + "." + addr.S
-	case "bea":
+	case "bea", "cpa":
 		return "E:*uint8"
 	case "ia":
 		if addr.Typ != nil {
-			return "E:" + types.TypeString(addr.Typ, nil)
+			// byte and uint8 are one type
+			return "E:" + strings.ReplaceAll(types.TypeString(addr.Typ, nil), "byte", "uint8")
 		}
 		return "E:?"
 	case "alloc":
@@ -967,7 +968,7 @@ func ownerName(t types.Type) string {
 
 // rootOf returns the innermost base of an address term.
 func rootOf(addr *Expr) *Expr {
-	for addr != nil && (addr.Op == "fa" || addr.Op == "ia" || addr.Op == "arr") {
+	for addr != nil && (addr.Op == "fa" || addr.Op == "ia" || addr.Op == "arr" || addr.Op == "bea" || addr.Op == "cpa") {
 		addr = addr.Args[0]
 	}
 	return addr
@@ -1087,6 +1088,9 @@ func mayAlias(s *State, a, b *Expr) bool {
 			c, isC := e.Args[1].IsConst()
 			w := map[string]int64{"be16": 2, "be32": 4, "be64": 8}[e.S]
 			return e.Args[0].Key, c, c + w, isC
+		case "cpa":
+			c, isC := e.Args[1].IsConst()
+			return e.Args[0].Key, c, posInf, isC
 		}
 		return "", 0, 0, false
 	}
